@@ -144,13 +144,13 @@ def run(ctx):
         news = ctx.find_calls(f, r"^syn::error::Error::new")
         ctx.ob("C04.syn.single-shape", f.key, "two Error::new sites", len(news) == 2, "%d" % len(news))
         for blk, t in news:
-            ctx.requires("C04.syn.single-direct", f, blk, "syn::Error::new", [r"Eq\(darling_core::error::Error::len\(a1\), 1_usize\)=True"])
+            ctx.requires("C04.syn.single-direct", f, blk, "syn::Error::new", [r"^darling_core::error::Error::len\(a1\)=1$"])
         fl = ctx.find_calls(f, r"Error::flatten$")
         comb_deep = ctx.find_calls_deep(f, r"^syn::error::Error::combine$")
         comb = [(blk, t) for blk, t, owner in comb_deep if owner is f]
         ctx.ob("C04.syn.multi-shape", f.key, "flatten + combine", len(fl) == 1 and len(comb_deep) == 1, "%d flatten, %d combine" % (len(fl), len(comb_deep)))
         for blk, t in fl + [(blk, t) for blk, t, _ in comb_deep]:
-            ctx.requires("C04.syn.multi-flattens", f, blk, "flatten/combine", [r"Eq\(darling_core::error::Error::len\(a1\), 1_usize\)=False"])
+            ctx.requires("C04.syn.multi-flattens", f, blk, "flatten/combine", [("ne", r"^darling_core::error::Error::len\(a1\)$", 1)])
         for blk, t, owner in comb_deep:
             if owner is f:
                 continue
